@@ -1061,6 +1061,53 @@ def check_bb(ctx, simplex, systems, label):
                        % (rows, key.split("/")[1], list(pt) if pt is not None else "Z3 finds one"), rp)
 
 
+# ------------------------------------------------------------------ simplex_strict: delta-rationals
+def check_delta(ctx, strict_mod, n):
+    """`Pair.__le__`, `binary_delta`, `multi_delta` of simplex_strict.py against the Lean model, and the
+    property itself on the implementation's answers: the delta returned is positive and every
+    comparison p1 <= p2 of the list holds for the rationals x + y*delta."""
+    rng = ctx.rng("delta")
+
+    def frac():
+        return Fraction(rng.randint(-6, 6), rng.choice([1, 1, 2, 3]))
+    cases, lines = [], []
+    for _ in range(n):
+        ps = []
+        for _ in range(rng.randint(0, 5)):
+            a, b = (frac(), frac()), (frac(), frac())
+            if rng.random() < 0.3:
+                b = (a[0], frac())                       # equal standard parts
+            if rng.random() < 0.15:
+                a, b = b, a
+            ps.append((a, b))
+        cases.append(ps)
+        lines.append(sexp.dumps(["delta", [[str(a[0]), str(a[1]), str(b[0]), str(b[1])] for a, b in ps]]))
+    out = ctx.lean_driver(EXE, lines) if lines else []
+    ndis = 0
+    for idx, ps in enumerate(cases):
+        pairs = [(strict_mod.Pair(*a), strict_mod.Pair(*b)) for a, b in ps]
+        key = json.dumps([[str(x) for x in a + b] for a, b in ps])
+        ctx.case(("delta", key), nontrivial=len(ps) >= 2)
+        try:
+            md = Fraction(strict_mod.multi_delta(*pairs))
+            bds = [Fraction(strict_mod.binary_delta(p1, p2)) if p1 <= p2 else None for p1, p2 in pairs]
+        except Exception as e:  # noqa
+            ctx.count("delta:raise:" + type(e).__name__)
+            continue
+        ctx.count("delta:cases")
+        bad = md <= 0 or any(p1 <= p2 and not (a[0] + a[1] * md <= b[0] + b[1] * md) for (p1, p2), (a, b) in zip(pairs, ps))
+        if bad:
+            report(ctx, "strict:bad-delta", key, "multi_delta of %s returns %s, for which a comparison p1 <= p2 of the list fails (or it is not positive)" % (key, md),
+                   {"kind": "delta", "pairs": key})
+        if out is not None:
+            x = sexp.loads(out[idx])
+            m = (Fraction(x[0]), [None if b == "none" else Fraction(b) for b in x[1:]]) if x != "bad-op" else None
+            if m != (md, bds):
+                ndis += 1
+                if ndis <= 3:
+                    ctx.broken("correspondence:c16:delta", "pairs=%s impl=%s model=%s" % (key, (str(md), [str(b) for b in bds]), m and (str(m[0]), [str(b) for b in m[1]])))
+
+
 def run_strict(strict_mod, rows, enc, strict):
     s = strict_mod.Simplex()
     try:
@@ -1357,9 +1404,9 @@ def run(ctx):
             ctx.log("Gen.lean regenerated (changed)")
     except Exception as e:  # noqa
         ctx.broken("translate:c16:combine_factoid", "untranslatable: %r" % e)
-    proofs_ok = ctx.lean_props(["Holpy.C16.Props", "Holpy.C16.PropsSimplex"], exes=[EXE])
+    proofs_ok = ctx.lean_props(["Holpy.C16.Props", "Holpy.C16.PropsSimplex", "Holpy.C16.PropsStrict"], exes=[EXE])
     if ctx.tier == "thorough" and proofs_ok:
-        ctx.lean_check_modules(["Holpy.C16.Props", "Holpy.C16.PropsSimplex"])
+        ctx.lean_check_modules(["Holpy.C16.Props", "Holpy.C16.PropsSimplex", "Holpy.C16.PropsStrict"])
     ctx.coverage["trusted_base"] += [
         "translator of omega.combine_real_factoid / combine_dark_factoid (Python AST -> Gen.lean, harness/props/c16.py)",
         "correspondence harness (generators, derivation/witness serialisation, rows -> GreaterEq/LessEq encoding, explanation -> Farkas multipliers)",
@@ -1419,6 +1466,7 @@ def run(ctx):
     rng = ctx.rng("strict")
     sys4 = [gen_system(rng) for _ in range(ctx.scale(800, 5000))]
     check_strict(ctx, simplex_strict, sys4, "random")
+    check_delta(ctx, simplex_strict, ctx.scale(2000, 30000))
     ctx.log("strict simplex stream done (%d)" % len(sys4))
     # 5. proof terms
     rng = ctx.rng("omegahol")
@@ -1511,7 +1559,11 @@ MANIFEST = {
             "never returns (one with 4 variables and 8 rows); fix C16-5 makes the choice Bland's rule, the model follows it, a confirmed "
             "time-out of handle_assertion is now a violation (simplex:nontermination), and 1.4 million further random systems showed no cycle "
             "with the fix; the outcome 'fuel' of the model claims nothing. NOT modelled / not proved: termination of branch_and_bound "
-            "(node budget; 'gave up' is no answer), simplex_strict (delta-pairs; Z3 and exact witness evaluation), the "
+            "(node budget; 'gave up' is no answer); of simplex_strict only the delta-rationals are modelled (Pair.__le__, binary_delta, "
+            "multi_delta; own correspondence stream): strict_delta_sound (multi_delta is positive and makes every comparison p1 <= p2 of "
+            "pairs true for the rationals x + y*delta) and strict_sat_sound_partial (IF a delta-assignment satisfies all constraints "
+            "lexicographically THEN x + y*multi_delta satisfies them, strict ones strictly; that the strict solver establishes the "
+            "premise is not proved), the strict Simplex class itself (delta-pairs; Z3 and exact witness evaluation), the "
             "proof-producing wrappers (checked by theory.check_proof). In addition every answer of the real Simplex is judged per run: "
             "witnesses go through checkWitness(Q), 'unsatisfiable' answers are certified by checkFarkas whenever Farkas multipliers "
             "can be read from the solver's explanation (internal fields; if not, or if they do not check, the verdict is decided by Z3 - only "
